@@ -22,8 +22,8 @@ they only record history so that the theorems of `Props/C12.lean` can talk about
 What is abstract: parsing + `PayloadBuilder::build` is the parameter `Assembler`
 (the driver instantiates it with `CamVerif.Stream` = the C11 model); the environment decides
 between "transfer completes" and "poll times out" (`Step.pollPending`) and may fail any submit.
-A cancelled transfer completes with `Timeout` and no data (libusb CANCELLED); the libusb race
-"completed just before the cancel" is not modelled.  `StreamParams` come from u32 registers,
+A cancelled transfer completes with `Timeout` and no data (libusb CANCELLED), possibly reported up
+to `maxLate` polls late (`reapLate`); the libusb race "completed just before the cancel" is not modelled.  `StreamParams` come from u32 registers,
 hence `maximum_payload_size` cannot overflow a 64-bit usize; no `Profile` is needed.
 -/
 import CamVerif.Prelude.Basic
@@ -47,6 +47,9 @@ structure Params where
   final2 : Nat
   cap : Nat
   bufCap : Nat
+  /-- cancellation latency of the USB stack: the completion of a cancelled transfer is reported at
+  most this many polls late (libusb cancels asynchronously) -/
+  maxLate : Nat
   deriving Repr, DecidableEq, BEq
 
 /-- `StreamParams::maximum_payload_size` -/
@@ -195,6 +198,8 @@ structure State where
   short : Bool
   /-- `payload_has_gap`: a payload transfer received data after a short one -/
   gap : Bool
+  /-- polls already spent on the (cancelled) front transfer without its completion being reported -/
+  late : Nat
   nextXfer : Nat
   nextBuf : Nat
   -- channels
@@ -221,7 +226,7 @@ structure State where
 def init (P : Params) : State :=
   { consumed := 0, pc := .top, cur := none, reuse := none,
     leaderBuf := List.replicate P.leaderSize 0, trailerBuf := List.replicate P.trailerSize 0,
-    pending := [], first := none, last := none, plen := 0, short := false, gap := false, nextXfer := 0, nextBuf := 0,
+    pending := [], first := none, last := none, plen := 0, short := false, gap := false, late := 0, nextXfer := 0, nextBuf := 0,
     chan := [], back := [], senderAlive := true, rxAlive := true, held := [], freed := [],
     ctl := .running, iterStart := 0, got := [], enq := false, sentLog := [], recvLog := [],
     faults := 0 }
@@ -242,6 +247,7 @@ inductive Step where
   | trySend
   | cancelNext
   | reapOne
+  | reapLate
   | iterEnd
   | exit
   | rxRecv
@@ -452,8 +458,19 @@ def stepReapOne (s : State) : Option State :=
   match s.pc with
   | .drop c =>
     match s.pending with
-    | _ :: rest => if c = s.pending.length then some { s with pc := .drop (c - 1), pending := rest } else none
+    | _ :: rest =>
+      if c = s.pending.length then some { s with pc := .drop (c - 1), pending := rest, late := 0 } else none
     | [] => none
+  | _ => none
+
+/-- The same loop of `AsyncPool::drop`, but the completion of the cancelled front transfer has not
+been reported yet (cancellation is asynchronous): `poll` returns `Timeout` without reaping and the
+`while !self.is_empty()` loop polls again.  At most `maxLate` times per transfer (environment). -/
+def stepReapLate (s : State) : Option State :=
+  match s.pc with
+  | .drop c =>
+    if c = s.pending.length ∧ s.pending ≠ [] ∧ s.late < P.maxLate then some { s with late := s.late + 1 }
+    else none
   | _ => none
 
 /-- End of the loop body: `payload_buf` (if still owned) is freed. -/
@@ -544,6 +561,7 @@ def step (s : State) : Step → Option State
   | .trySend => stepTrySend P s
   | .cancelNext => stepCancelNext s
   | .reapOne => stepReapOne s
+  | .reapLate => stepReapLate P s
   | .iterEnd => stepIterEnd s
   | .exit => stepExit s
   | .rxRecv => stepRxRecv s
@@ -561,7 +579,7 @@ def candidates (s : State) : List Step :=
   [.checkCancel, .obtainReuse, .obtainBack, .obtainAlloc, .submitOk,
    .submitFail .io, .submitFail .disconnected, .submitFail .timeout,
    .pollOk, .pollOverflow, .pollFault, .pollPending, .parse, .trySend,
-   .cancelNext, .reapOne, .iterEnd, .exit, .rxRecv, .rxNone, .rxClose, .stopCall, .stopBlock, .stopDisc, .closeDone]
+   .cancelNext, .reapOne, .reapLate, .iterEnd, .exit, .rxRecv, .rxNone, .rxClose, .stopCall, .stopBlock, .stopDisc, .closeDone]
   ++ s.held.map (fun m => .rxSendBack m.buf.id)
   ++ s.held.map (fun m => .rxDrop m.buf.id)
 
